@@ -97,11 +97,28 @@ _FLUSH_BASE_EXC = {
 }
 
 
+def _after_helper(kind, key):
+    return {"new": {"task": [{"op": "yield", "x": "n%d" % key, "s": {"new": {"task": [{"op": "return", "e": key}]}}},
+                             {"op": "yield", "x": "v%d" % key, "s": {"new": {"item": [kind, key, {"set": key}]}}},
+                             {"op": "return", "e": {"var": "v%d" % key}}]}}
+
+
+# tasks that first await a sub-task and only then a batch item: their batch (3 items) must be scheduled by the time the
+# scheduler has to choose, and win against the 1-item batch of the other kind
+_LATE_ITEMS = {
+    "roots": [[{"op": "yield", "x": "x1", "s": {"tuple": [
+        {"new": {"task": [{"op": "yield", "x": "a1", "s": {"new": {"item": [0, 1, {"set": 1}]}}}, {"op": "return", "e": {"var": "a1"}}]}},
+        _after_helper(1, 2), _after_helper(1, 3), _after_helper(1, 4)]}},
+        {"op": "return", "e": {"var": "x1"}}]],
+    "params": {"kinds": {}},
+}
+
+
 def _extra_monitors(c, io, build):
     return machmon.analyse_flush_nesting(c, io) if _is_reentrant(c) else []
 
 
 mach.install(globals(), "C05", ("EvBefore", "EvFlush", "EvItemDone", "EvAfter", "EvIllegal"), ("C05:",), PROFILES,
-             n_quick=300, n_thorough=25000, nontrivial=_nontrivial, level="proof", corpus=[_KEPT_FLUSHED, _FLUSH_BASE_EXC] + _REENTRANT,
+             n_quick=300, n_thorough=25000, nontrivial=_nontrivial, level="proof", corpus=[_KEPT_FLUSHED, _FLUSH_BASE_EXC, _LATE_ITEMS] + _REENTRANT,
              impl_only=_is_reentrant, extra_monitors=_extra_monitors,
              extra_gen=mach.extra_all(_extra_gen, mach.extra_profiles(_BASE_ERR, 40, 3000)))
